@@ -13,7 +13,8 @@ Record acase := ACase {
   c_src : list stmt;
   c_out : option (list stmt);       (* None: the real call raised (HandlerError) *)
   c_idem : bool;                    (* harness: applying the same stub to the output returned the same text *)
-  c_parse : bool                    (* harness: ast.parse accepted the output *)
+  c_parse : bool;                   (* harness: ast.parse accepted the output *)
+  c_gen : bool                      (* the stub was rendered by the real stub machinery from traces of this source *)
 }.
 
 Definition stmts_eqb (a b : list stmt) : bool := if stmts_eq_dec a b then true else false.
@@ -37,12 +38,14 @@ Definition b_star := negb b_erase && f_sd && negb f_d.
 Definition b_dotted := negb b_erase && f_sd && negb f_s.
 Definition b_parse := negb (c_parse c).
 Definition b_idem := negb (c_idem c).
+(* a generated stub must be applicable to the functions it was generated from *)
+Definition b_unfit := c_gen c && negb (stub_fits (c_stub c) (c_src c)).
 Definition model := if c_conf c then None else apply (c_ow c) (c_stub c) (c_src c).
 Definition b_nomodel := match model with None => true | Some _ => false end.
 Definition b_mismatch := match model, c_out c with Some m, Some o => negb (stmts_eqb m o) | _, _ => false end.
 
 Definition pred_false : bool :=
-  b_raised || (negb b_raised && (b_erase || b_respects || b_other || b_star || b_dotted || b_parse || b_idem)).
+  b_raised || (negb b_raised && (b_erase || b_respects || b_other || b_star || b_dotted || b_parse || b_idem || b_unfit)).
 End V.
 
 (* 0 ok; 1 model <> implementation, predicates hold; 2 a property predicate is false on the
@@ -52,9 +55,10 @@ Definition verdict (c : acase) : nat :=
 
 Definition bit (b : bool) (w : nat) : nat := if b then w else 0.
 (* verdict + 4 * flags; flags: 1 star, 2 dotted, 4 other completeness, 8 erase, 16 respects, 32 parse,
-   64 idempotence, 128 raised, 256 outside the model fragment (or confinement on), 512 model mismatch *)
+   64 idempotence, 128 raised, 256 outside the model fragment (or confinement on), 512 model mismatch,
+   1024 a generated stub function does not fit its own source function *)
 Definition report (c : acase) : nat :=
   if b_raised c then 2 + 4 * 128 else
   verdict c + 4 * (bit (b_star c) 1 + bit (b_dotted c) 2 + bit (b_other c) 4 + bit (b_erase c) 8
                    + bit (b_respects c) 16 + bit (b_parse c) 32 + bit (b_idem c) 64
-                   + bit (b_nomodel c) 256 + bit (b_mismatch c) 512).
+                   + bit (b_nomodel c) 256 + bit (b_mismatch c) 512 + bit (b_unfit c) 1024).
